@@ -260,7 +260,9 @@ AROMATIC_SEEDS = [
     "c1ccccc1C", "Oc1ccccc1", "c1ccc2occc2c1", "O=c1cnc[nH]c1", "C1=CC=CC=C1", "c1ccccc1.c1ccncc1",
     "c1ccc2ncccc2c1", "c1c2ccccc2cc2ccccc12", "[cH]1[cH][cH][cH][cH][cH]1", "c1ccc2c(c1)ccc1ccccc12",
     "n1ccccc1", "c1ccc[n+]([O-])c1", "c1ccc(cc1)[N+](=O)[O-]", "[O-]c1ccccc1", "Cc1ccccc1", "c1ccbcc1",
-    "c1cc[siH]cc1", "c1ccc2c(c1)[nH]c1ccccc12", "c1ccc2c(c1)c1nc3nc(nc4[nH]c(nc5nc(nc2[nH]1)c1ccccc51)c1ccccc41)c1ccccc31",
+    "c1cc[siH]cc1", "c1ccc2c(c1)[nH]c1ccccc12", "c1cc2ccc3ccc4ccc5ccc1c1c2c3c4c51", "c1ccc2c(c1)-c1cccc3cccc-2c13",
+    "c1cc2cccc3c2c(c1)C=C3", "C1=Cc2cccc3cccc1c23", "c1ccc2c(c1)cc1ccc3cccc4ccc2c1c34",
+    "c1ccc2cccc-2cc1", "c12c3c4c5c1c1c6c7c2c2c8c3c3c9c4c4c%10c5c5c1c1c6c6c%11c7c2c2c7c8c3c3c8c9c4c4c9c%10c5c5c1c1c6c6c%11c2c2c7c3c3c8c4c4c9c5c1c1c6c2c3c41", "c1ccc2c(c1)c1nc3nc(nc4[nH]c(nc5nc(nc2[nH]1)c1ccccc51)c1ccccc41)c1ccccc31",
     "CC(C)(c1ccccc1)c1ccc(Oc2ccc3c4nc5nc(nc6nc(nc7nc(nc(n4)c3c2)c2ccc(Oc3ccc(C(C)(C)c4ccccc4)cc3)cc72)c2ccc(Oc3ccc(C(C)(C)c4ccccc4)cc3)cc62)c2cc(Oc3ccc(C(C)(C)c4ccccc4)cc3)ccc52)cc1", "c1cc2ccc3ccc4ccc5ccc6ccc1c1c2c3c4c5c61",
     "c12c3c4c5c1c1c6c7c2c2c8c3c3c9c4c4c%10c5c5c1c1c6c6c%11c7c2c2c7c8c3c3c8c9c4c4c9c%10c5c5c1c1c6c6c%11c2c2c7c3c3c8c4c4c9c5c1c1c6c2c3c41",
 ]
@@ -322,6 +324,104 @@ def relabel_rings(rng, smi):
     rng.shuffle(pool)
     mp = dict(zip(labels, pool))
     return "".join(mp.get(t, t) for t in toks)
+
+
+def digits_after_branches(rng, smi):
+    """respell: move the ring-closure labels of an atom BEHIND (some of) its branches, e.g. `[C@]1(F)(Cl)CC1`
+    -> `[C@](F)(Cl)1CC1` / `[C@](F)1(Cl)CC1`. Legal SMILES that no standard writer produces; it changes the
+    written neighbour order (so it may denote the other enantiomer, which is fine for a test input)."""
+    import re
+    toks = re.findall(r"\[[^\]]*\]|Br|Cl|%\d\d|\d|.", smi)
+    out = []
+    i = 0
+    changed = False
+    while i < len(toks):
+        t = toks[i]
+        out.append(t)
+        i += 1
+        is_atom = t.startswith("[") or t in ("Br", "Cl") or (len(t) == 1 and t.isalpha())
+        if not is_atom:
+            continue
+        # labels (with optional bond symbol in front) directly after the atom
+        labels = []
+        j = i
+        while j < len(toks):
+            if re.fullmatch(r"%\d\d|\d", toks[j]):
+                labels.append([toks[j]])
+                j += 1
+            elif toks[j] in "=#/\\-:" and j + 1 < len(toks) and re.fullmatch(r"%\d\d|\d", toks[j + 1]):
+                labels.append([toks[j], toks[j + 1]])
+                j += 2
+            else:
+                break
+        # balanced groups after the labels
+        groups = []
+        k = j
+        while k < len(toks) and toks[k] == "(":
+            depth = 0
+            m = k
+            while m < len(toks):
+                if toks[m] == "(":
+                    depth += 1
+                elif toks[m] == ")":
+                    depth -= 1
+                    if depth == 0:
+                        break
+                m += 1
+            if m >= len(toks):
+                break
+            groups.append(toks[k:m + 1])
+            k = m + 1
+        # a terminal atom that continues the chain can be written as one more branch: X1(F)Cl -> X(F)(Cl)1
+        if labels and k < len(toks) and rng.random() < 0.6:
+            m = k
+            pre = []
+            if toks[m] in "=#/\\-" and m + 1 < len(toks):
+                pre = [toks[m]]
+                m += 1
+            if m < len(toks) and (toks[m].startswith("[") or toks[m] in ("Br", "Cl", "F", "I", "C", "N", "O", "S", "P", "B")) \
+                    and (m + 1 == len(toks) or toks[m + 1] == ")"):
+                groups.append(["("] + pre + [toks[m]] + [")"])
+                k = m + 1
+        if labels and groups and rng.random() < 0.8:
+            # interleave: choose for every label how many groups precede it
+            cuts = sorted(rng.randint(0, len(groups)) for _ in labels)
+            if any(cuts):
+                seq = []
+                gi = 0
+                for lab, c in zip(labels, cuts):
+                    while gi < c:
+                        seq.extend(groups[gi])
+                        gi += 1
+                    seq.extend(lab)
+                while gi < len(groups):
+                    seq.extend(groups[gi])
+                    gi += 1
+                out.extend(seq)
+                i = k
+                changed = True
+    return "".join(out) if changed else None
+
+
+def capacity_pairs(rng):
+    """molecules that contain a legal atom and, elsewhere, a sibling of the same element / charge / bond count
+    that differs only in explicit H (or in nothing) - in both orders, as one chain and as two fragments"""
+    out = []
+    subs = ["C", "F", "Cl", "O"]
+    for el, kmax in (("N", 4), ("O", 3), ("C", 5), ("S", 6), ("P", 5), ("B", 4), ("Si", 5), ("Cl", 2), ("I", 3), ("Se", 3)):
+        for k in range(1, kmax + 1):
+            arms = ["(%s)" % rng.choice(subs) for _ in range(k)]
+            plain = (el if len(el) == 1 or el in ("Cl", "Br") else "[%s]" % el) + "".join(arms[:-1]) + arms[-1][1:-1]
+            if el in ("Si", "Se"):
+                plain = "[%s]" % el + "".join(arms[:-1]) + arms[-1][1:-1]
+            for h in (1, 2, 3):
+                for chg in ("", "+", "-"):
+                    br = "[%sH%d%s]" % (el, h, chg) + "".join(arms[:-1]) + arms[-1][1:-1]
+                    pl = plain if not chg else "[%s%s]" % (el, chg) + "".join(arms[:-1]) + arms[-1][1:-1]
+                    out += [pl + "." + br, br + "." + pl, "C" + pl[len(el) if not pl.startswith("[") else 0:] if False else pl + "CC" + br,
+                            br + "CC" + pl]
+    rng.shuffle(out)
+    return out
 
 
 def random_tree_smiles(rng, natoms, table_atoms=None):
